@@ -53,7 +53,19 @@ type FaultPlan struct {
 	HitKey  string
 	// Reads counts storage reads per (address, key) while a read fault is planned
 	Reads map[string]int
+	// Alt selects another manifestation of the same failure: an account load that answers with
+	// something that is not a user account (1: an account of another kind, 2: nothing at all, both
+	// without an error value), a payability query that fails with "true" next to its error (1)
+	Alt int
 }
+
+// foreignAccount is an account of a kind the built-in functions cannot use (a validator account).
+type foreignAccount struct{ addr []byte }
+
+func (f *foreignAccount) AddressBytes() []byte { return f.addr }
+func (f *foreignAccount) IncreaseNonce(uint64) {}
+func (f *foreignAccount) GetNonce() uint64     { return 0 }
+func (f *foreignAccount) IsInterfaceNil() bool { return f == nil }
 
 // NewFaultPlan returns a plan that never fires.
 func NewFaultPlan() *FaultPlan { return &FaultPlan{Kind: -1} }
@@ -125,6 +137,12 @@ func (s *Store) LoadAccount(address []byte) (vmcommon.AccountHandler, error) {
 		kind = DepPauseLookup
 	}
 	if s.Faults.hit(kind) {
+		switch s.Faults.Alt {
+		case 1:
+			return &foreignAccount{addr: append([]byte{}, address...)}, nil
+		case 2:
+			return nil, nil
+		}
 		return nil, ErrInjected
 	}
 	s.Loads++
